@@ -187,3 +187,77 @@ func ZZ_C11_readFaults() {
 	nondet.Reach("C11.read.a-read-failed", readFailed)
 	nondet.Reach("C11.read.none-failed", !readFailed)
 }
+
+// ZZ_C11_canaryEndFaults: the end of a canary takes two writes on the ExtendedDaemonSet — the status
+// (status.canary cleared, new active replica set) and the object (canary annotations removed).  A
+// paused / unpaused canary is validated by the user (or fails); in the faulty world every write of
+// the reconcile that ends it is arbitrarily rejected, applied with the answer lost, or fine, and the
+// controller instance survives or is replaced; the reference world runs the same reconcile without
+// faults.  After the same failure-free reconciles both worlds hold the same ExtendedDaemonSet:
+// status (active replica set, canary block, state) and canary annotations — nothing a failed write
+// left half-done stays half-done.
+func ZZ_C11_canaryEndFaults() {
+	paused := nondet.Bool("ann.canary-paused")
+	unpaused := nondet.Bool("ann.canary-unpaused")
+	ending := nondet.String("ending", "validated", "failed")
+	build := func() *fakeapi.Client {
+		canary := &datadoghqv1alpha1.ExtendedDaemonSetSpecStrategyCanary{Duration: &metav1.Duration{Duration: time.Hour}}
+		ds := zzEDS("ns", "foo", "B", canary)
+		c := fakeapi.New()
+		rsA := zzRS(ds, "A", "foo-a", nondet.Base().Add(-24*time.Hour))
+		rsA.Status.Desired, rsA.Status.Current, rsA.Status.Ready, rsA.Status.Available = 2, 2, 2, 2
+		rsB := zzRS(ds, "B", "foo-b", nondet.Base().Add(-10*time.Minute))
+		rsB.Status.Desired, rsB.Status.Current, rsB.Status.Ready, rsB.Status.Available = 1, 1, 1, 1
+		if paused {
+			ds.Annotations[datadoghqv1alpha1.ExtendedDaemonSetCanaryPausedAnnotationKey] = "true"
+			ds.Annotations[datadoghqv1alpha1.ExtendedDaemonSetCanaryPausedReasonAnnotationKey] = "CrashLoopBackOff"
+		}
+		if unpaused {
+			ds.Annotations[datadoghqv1alpha1.ExtendedDaemonSetCanaryUnpausedAnnotationKey] = "true"
+		}
+		if ending == "validated" {
+			ds.Annotations[datadoghqv1alpha1.ExtendedDaemonSetCanaryValidAnnotationKey] = "foo-b"
+		} else {
+			zzSetCond(rsB, datadoghqv1alpha1.ConditionTypeCanaryFailed, true, nondet.Base().Add(-time.Minute))
+		}
+		ds.Status.ActiveReplicaSet = "foo-a"
+		ds.Status.State = datadoghqv1alpha1.ExtendedDaemonSetStatusStateCanary
+		ds.Status.Canary = &datadoghqv1alpha1.ExtendedDaemonSetStatusCanary{ReplicaSet: "foo-b", Nodes: []string{"node0"}}
+		c.Nodes = append(c.Nodes, &corev1.Node{ObjectMeta: metav1.ObjectMeta{Name: "node0"}}, &corev1.Node{ObjectMeta: metav1.ObjectMeta{Name: "node1"}})
+		c.EDS = append(c.EDS, ds)
+		c.ERS = append(c.ERS, rsA, rsB)
+		return c
+	}
+	faulty, reference := build(), build()
+	faulty.InjectFaults = true
+	first := zzReconciler(faulty)
+	_, _ = zzReconcile(first, "ns", "foo")
+	faulty.InjectFaults = false
+	_, errR := zzReconcile(zzReconciler(reference), "ns", "foo")
+	nondet.Assert("C11.canary-end.reference-run-ok", errR == nil)
+	next := func() *Reconciler { return zzReconciler(faulty) }
+	if nondet.Bool("sameInstanceSurvives") {
+		next = func() *Reconciler { return first }
+	}
+	for i := 0; i < 3; i++ {
+		_, e1 := zzReconcile(next(), "ns", "foo")
+		_, e2 := zzReconcile(zzReconciler(reference), "ns", "foo")
+		nondet.Assert("C11.canary-end.recovery-ok", e1 == nil && e2 == nil)
+	}
+	f, r := zzStoredEDS(faulty, "ns", "foo"), zzStoredEDS(reference, "ns", "foo")
+	nondet.Assert("C11.canary-end.same-status", f.Status.ActiveReplicaSet == r.Status.ActiveReplicaSet && (f.Status.Canary == nil) == (r.Status.Canary == nil) && f.Status.State == r.Status.State)
+	for _, k := range []string{datadoghqv1alpha1.ExtendedDaemonSetCanaryPausedAnnotationKey, datadoghqv1alpha1.ExtendedDaemonSetCanaryPausedReasonAnnotationKey, datadoghqv1alpha1.ExtendedDaemonSetCanaryUnpausedAnnotationKey} {
+		fv, fok := f.Annotations[k]
+		rv, rok := r.Annotations[k]
+		nondet.Assert("C11.canary-end.same-canary-annotations", fok == rok && fv == rv)
+	}
+	nondet.Assert("C11.canary-end.same-template", zzImage(&f.Spec.Template) == zzImage(&r.Spec.Template))
+	anyFault := false
+	for _, e := range faulty.Log {
+		if e.Failed {
+			anyFault = true
+		}
+	}
+	nondet.Observe("active", r.Status.ActiveReplicaSet)
+	nondet.Reach("C11.canary-end.object-write-rejected", anyFault && paused && r.Status.Canary == nil)
+}
